@@ -1,0 +1,21 @@
+//go:build verif
+
+// Machine-checked contracts for package rhp (comment-only; compiled only
+// under the build tag "verif").  Read by /verif/govc; see /verif/DESIGN.md §2.5.
+
+package rhp
+
+// v1tax: the post-HardforkTax file contract tax of consensus.State.FileContractTax:
+// floor(39 p / 1000) rounded down to a multiple of the siafund count.
+//@ spec v1tax(p int) int = 39*p/1000 - (39*p/1000) % 10000
+
+//@ func taxAdjustedPayout
+//@   prop C17
+//@   requires types.u128(target) * 1000 < types.M128
+//@   ensures @inverse types.u128(result) - v1tax(types.u128(result)) == types.u128(target)
+
+// the mod64 closure of taxAdjustedPayout; its only call sites pass the siafund count
+//@ func taxAdjustedPayout$1
+//@   prop C17
+//@   requires v == 10000
+//@   ensures @mod types.u128(result) == types.u128(c) % v
